@@ -17,6 +17,9 @@
 //  3. after Commit + Reopen the new instance has the same Root, Size and
 //     contents; WasRestoredFromStorage of a new instance is true iff a Commit
 //     happened on that store.
+//
+// Concurrent histories (linearizability against the same model, deterministic
+// Stream / Commit windows, -race child) live in conc.go.
 package main
 
 import (
@@ -1227,6 +1230,11 @@ func opsString(ops []op, n int) string {
 // ------------------------------------------------------------------ replay
 
 func replay(c *vf.Ctx) {
+	var probe concCase
+	if err := c.LoadReplay(&probe); err == nil && probe.Part == "conc" {
+		concReplay(c, &probe)
+		return
+	}
 	var rec replayRec
 	if err := c.LoadReplay(&rec); err != nil {
 		fmt.Fprintln(os.Stderr, err)
@@ -1266,7 +1274,7 @@ func run(c *vf.Ctx) {
 		replay(c)
 		return
 	}
-	c.SetRule("one evaluation = one operation of a seeded sequential history (20-60 ops, a third preceded by a fill of the key set, of Set/Add, Delete, Get, Has, Size, Stream, Root, Commit, Reopen-after-Commit (what is called first on the restored instance varies: nothing / one accessor / Size+Root / full comparison, the first call being each of Size, Root, Has, Get, Stream, Set/Add, Delete, Commit, WasRestoredFromStorage; full comparisons then happen later), several Commits on one instance incl. contents returning to an earlier committed state, Probe; 70% map / 30% set flavour; key subsets of a 25-key alphabet whose groups share 8-20 (thorough: 8-22) leading SHA-256 path bits, plus the empty key; values nil-encoded, []byte{}, 1 byte, 100 bytes; half of the map histories never use a nil-encoded value) executed on ads over mapdb and compared with a plain map; every Root observation is entered in a run-wide contents<->root table. distinct_nontrivial = distinct non-empty content sets whose Root was compared with at least two other, differently ordered op sequences reaching the same contents (sorted rebuild and shuffled rebuild with overwrite/delete-reinsert/foreign-key/commit noise); distinct_cross_history_content_sets = content sets reached by two different generated histories")
+	c.SetRule("one evaluation = one operation of a seeded sequential history (20-60 ops, a third preceded by a fill of the key set, of Set/Add, Delete, Get, Has, Size, Stream, Root, Commit, Reopen-after-Commit (what is called first on the restored instance varies: nothing / one accessor / Size+Root / full comparison, the first call being each of Size, Root, Has, Get, Stream, Set/Add, Delete, Commit, WasRestoredFromStorage; full comparisons then happen later), several Commits on one instance incl. contents returning to an earlier committed state, Probe; 70% map / 30% set flavour; key subsets of a 25-key alphabet whose groups share 8-20 (thorough: 8-22) leading SHA-256 path bits, plus the empty key; values nil-encoded, []byte{}, 1 byte, 100 bytes; half of the map histories never use a nil-encoded value) executed on ads over mapdb and compared with a plain map; every Root observation is entered in a run-wide contents<->root table. distinct_nontrivial = distinct non-empty content sets whose Root was compared with at least two other, differently ordered op sequences reaching the same contents (sorted rebuild and shuffled rebuild with overwrite/delete-reinsert/foreign-key/commit noise); distinct_cross_history_content_sets = content sets reached by two different generated histories. Part conc (conc.go): seeded concurrent histories (3-5 goroutines x 4-10 operations of Set/Add, Delete, Get, Has, Size, Root, Stream, Commit, WasRestoredFromStorage over 4 keys, unique values of 2-6000 bytes, four method-weight profiles, set-ups fresh / committed / committed+dirty / restored / restored+dirty, a family without Delete) recorded at the client boundary and decided by porcupine against the same map model extended by the contents at the last Commit (Root through rootOf(contents) computed on fresh sequential instances, Stream and Size as atomic snapshots, a new instance opened over the store at the end must hold the last committed contents), run in a plain and in a -race child; plus deterministic windows judged with goroutine snapshots: Stream parked in its callback on the first pair, Commit parked at every store write it performs and in the root serializer, while a writer performs 2-3 Set/Delete, followed by a new instance over a copy of the store taken when Commit returned")
 	t0 := time.Now()
 	e := &explorer{c: c, alphabet: buildAlphabet(c), hashes: map[string][32]byte{}, tables: map[string]*table{"map": newTable(), "set": newTable()}}
 	for _, k := range e.alphabet {
@@ -1306,7 +1314,8 @@ func run(c *vf.Ctx) {
 	c.Require("reopens_after_return_to_earlier_committed_state", n/50)
 	c.Require("deferred_root_checks_after_reopen", n/50)
 	c.Require("max_trie_depth", 15)
+	concPart(c)
 	c.Assume("the plain Go map model and SHA-256 are correct; mapdb is the store under ads (faults of the store are not injected here)")
 }
 
-func main() { vf.Main("C09", "exploration", run, nil) }
+func main() { vf.Main("C09", "exploration", run, concChildDispatch) }
